@@ -144,7 +144,7 @@ OpenF(ff, ix, ft) ==
       ELSE [ok |-> TRUE, f |-> SubSeq(ff, 1, Len(ff) - (fh - th))]
 
 ----------------------------------------------------------------------------
-NoPend == [eof |-> TRUE, bad |-> FALSE, bh |-> <<>>, fh |-> <<>>, t |-> NF, bend |-> 0]
+NoPend == [eof |-> TRUE, bad |-> FALSE, rdfail |-> FALSE, bh |-> <<>>, fh |-> <<>>, t |-> NF, bend |-> 0]
 NoReg  == [dS |-> 0, dE |-> 0, dEx |-> FALSE, dMode |-> "BF", nS |-> 0, nE |-> 0, nEx |-> FALSE]
 
 RegE(r)    == IF r = "div" THEN reg.dE ELSE reg.nE
@@ -165,9 +165,19 @@ Batch(r, b) ==
       fh   == IF m = "B" THEN <<>> ELSE [i \in 1..len |-> <<FileF(cfg, hAt(i)), hAt(i)>>]
       btp  == TipOf(bfile, idx, btip)
       last == bend >= eIdx
+      \* cfg.rsrc: the block ("B") or filter ("F") header source cannot be read
+      \* from the header of height cfg.rk on once the write pass has begun
+      \* (file_source.go GetHeader: ReadAt fails, "failed to read header at
+      \* index %d: %w"; iter.go ReadBatch hands the error up, processBatch wraps
+      \* it again).  Whatever the error is (a short read = wrapped io.EOF, or any
+      \* other I/O error) it is not the bare io.EOF that ends a region, so the
+      \* batch that needs such a header fails before anything of it is written.
+      rdfail == /\ run = 1 /\ cfg.rsrc # "none" /\ aEnd >= cfg.rk - cfg.s
+                /\ ((cfg.rsrc = "B" /\ m # "F") \/ (cfg.rsrc = "F" /\ m # "B"))
   IN  IF rs > aEnd THEN NoPend
       ELSE [eof |-> FALSE,
             bad |-> m = "F" /\ last /\ (btp[1] = ERR \/ btp[2] # hAt(len)),
+            rdfail |-> rdfail,
             bh |-> bh, fh |-> fh,
             t |-> IF m = "BF" THEN FileB(cfg, hAt(len))
                   ELSE IF m = "F" /\ last THEN btp[1] ELSE -9,
@@ -181,12 +191,12 @@ Done == Ctl("ret", "none", 0, NoPend, "ok")
 GoNew(b) ==
   IF ~reg.nEx \/ Batch("new", b).eof THEN Done
   ELSE IF cfg.cx = 1 THEN Ctl("ret", "new", b, NoPend, "err")
-  ELSE IF Batch("new", b).bad THEN Ctl("ret", "new", b, NoPend, "err")
+  ELSE IF Batch("new", b).bad \/ Batch("new", b).rdfail THEN Ctl("ret", "new", b, NoPend, "err")
   ELSE Ctl("writeB", "new", b, Batch("new", b), ret)
 GoDiv(b) ==
   IF Batch("div", b).eof THEN GoNew(reg.nS)
   ELSE IF cfg.cx = 1 THEN Ctl("ret", "div", b, NoPend, "err")
-  ELSE IF Batch("div", b).bad THEN Ctl("ret", "div", b, NoPend, "err")
+  ELSE IF Batch("div", b).bad \/ Batch("div", b).rdfail THEN Ctl("ret", "div", b, NoPend, "err")
   ELSE Ctl("writeB", "div", b, Batch("div", b), ret)
 GoOn(b) == IF cur = "div" THEN GoDiv(b) ELSE GoNew(b)
 
@@ -443,7 +453,7 @@ Kinds  == {"none", "fork", "pow", "bits", "time", "link"}
 FKinds == {"none", "magic", "magicF", "truncB", "truncF", "emptyB", "shortF", "startF"}
 
 B2N(b) == IF b THEN 1 ELSE 0
-Anom(c) == B2N(c.kind # "none") + B2N(c.fy # NF) + B2N(c.fk # "none")
+Anom(c) == B2N(c.kind # "none") + B2N(c.fy # NF) + B2N(c.fk # "none") + B2N(c.rsrc # "none")
 
 Init ==
   /\ \E s \in 0..MaxStart, n \in 1..MaxLen, bs \in 1..MaxBatch, hB \in 0..MaxStoreH :
@@ -451,10 +461,13 @@ Init ==
      \E kind \in Kinds, fk \in FKinds :
      \E x \in (IF kind = "none" THEN {NF} ELSE s..(s + n - 1)),
         fy \in {NF} \cup (s..(s + n - 1)),
-        ck \in {NF} \cup (s..(s + n - 1)), cx \in {0, 1} :
+        ck \in {NF} \cup (s..(s + n - 1)), cx \in {0, 1},
+        rsrc \in {"none", "B", "F"}, rkind \in {"none", "eof", "io"} :
+     \E rk \in (IF rsrc = "none" THEN {NF} ELSE s..(s + n - 1)) :
        /\ s + n - 1 <= MaxH
        /\ cfg = [s |-> s, n |-> n, bs |-> bs, hB |-> hB, hF |-> hF,
-                 x |-> x, kind |-> kind, fy |-> fy, fk |-> fk, ck |-> ck, cx |-> cx]
+                 x |-> x, kind |-> kind, fy |-> fy, fk |-> fk, ck |-> ck, cx |-> cx,
+                 rsrc |-> rsrc, rk |-> rk, rkind |-> rkind]
        /\ Anom(cfg) <= MaxAnom
        /\ (kind # "none" => fy = NF)      \* the whole filter file already differs from x on
        \* configurations that fail before the file's headers are looked at
@@ -466,8 +479,13 @@ Init ==
        \* fail in ValB are not multiplied with it
        /\ (ck # NF => (kind \in {"none", "fork"} /\ cx = 0))
        /\ (cx = 1 => fy = NF)
+       \* an unreadable source in the write pass: only where the write pass
+       \* needs that header (equal store heights, header above the tips), not
+       \* multiplied with checkpoints, a cancelled context or store faults
+       /\ ((rsrc = "none") <=> (rkind = "none"))
+       /\ (rsrc # "none" => (hB = hF /\ rk > hB /\ ck = NF /\ cx = 0))
        \* faults are not multiplied with checkpoints / a cancelled context
-       /\ nf = IF Anom(cfg) < MaxAnom /\ cx = 0 /\ ck = NF THEN MaxFaults ELSE 0
+       /\ nf = IF Anom(cfg) < MaxAnom /\ cx = 0 /\ ck = NF /\ rsrc = "none" THEN MaxFaults ELSE 0
   /\ bfile = [p \in 1..(cfg.hB + 1) |-> p - 1]
   /\ ffile = [p \in 1..(cfg.hF + 1) |-> p - 1]
   /\ idx = {<<h, h>> : h \in 0..cfg.hB}
